@@ -83,9 +83,17 @@ def cases(draw):
             pats = [{'ex': 'ZQ'}]
             during = []
             silent = False
+        none_timeout = False
+        if mode == 'sync' and not eof and i > 0 and draw(st.integers(0, 3)) == 0:
+            # a blocking call without a time limit that has to wait: its match is written by a timer thread 50 ms in
+            none_timeout = True
+            exact = True
+            pats = [{'ex': 'ZQ'}]
+            silent = False
         calls.append({'mode': mode, 'op': 'expect_exact' if (exact or late) else draw(st.sampled_from(['expect', 'expect_list'])),
-                      'pats': pats, 'w': draw(e1.windows()), 'pre': pre, 'during': during, 'eof': eof, 'silent': silent,
-                      'cut_chars': cut, 'late': late})
+                      'pats': pats, 'w': (draw(st.sampled_from([None, -1, 5, 20])) if none_timeout else draw(e1.windows())),
+                      'pre': pre, 'during': during, 'eof': eof, 'silent': silent,
+                      'cut_chars': cut, 'late': late, 'none_timeout': none_timeout})
         if eof:
             break
     return {'enc': 'utf-8' if text_mode else None, 'maxread': draw(st.sampled_from([2000, 2000, 3])), 'calls': calls,
@@ -194,7 +202,15 @@ def check_case(case, col=None):
             ret = exc = None
             t0 = time.time()
             try:
-                if c['mode'] == 'sync':
+                if c['mode'] == 'sync' and c.get('none_timeout'):
+                    import threading
+                    tm = threading.Timer(0.05, lambda: w_open[0] and put(b'ZQ'))
+                    tm.start()
+                    try:
+                        ret = method(nat, timeout=None, searchwindowsize=c['w'])
+                    finally:
+                        tm.join()
+                elif c['mode'] == 'sync':
                     ret = method(nat, timeout=T, searchwindowsize=c['w'])
                 else:
                     async def writer():
